@@ -71,6 +71,11 @@ def check_router_run(ctx, sc, r):
             for (t2, p2) in peers:
                 if p2 and ident == p2.encode():
                     V("wrong-identity-prefix", "the anonymous peer %s was reported with another peer's identity %r" % (sender, ident))
+    if sc.get("poll"):
+        n_ok = len([x for x in S.rets(r, "recv_mp", sock="router") if x.get("res") == "ok"])
+        if n_ok < 2 * len(peers):
+            ctx.note("%s: the polling ROUTER saw %d of %d messages within its window (identity of those judged)" % (name, n_ok, 2 * len(peers)))
+        return
     # 2. echoes: each peer gets back exactly its own payloads, in order, unchanged
     refused = refused_connects(r)
     for pi, (ty, pid) in enumerate(peers):
@@ -231,6 +236,11 @@ def run(ctx):
     scs.append(S.router_scenario("router-255-tcp", "tcp", peers=(("DEALER", "Z" * 255), ("DEALER", "y"), ("REQ", None))))
     scs.append(S.router_scenario("router-tcp-uring", "tcp", uring=True))
     scs.append(S.router_reconnect("router-reconnect-tcp", "tcp"))
+    # a ROUTER that polls (RCVTIMEO 0) while identified peers connect and send at once
+    for tr in ["tcp", "ipc"]:
+        for k in range(3 if thorough else 2):
+            scs.append(S.router_poll("router-poll-%s-%d" % (tr, k), tr, npeers=32))
+    scs.append(S.router_poll("router-poll-tcp-uring", "tcp", npeers=16, uring=True))
     # replies of every envelope shape (empty frames first, last, only) to every kind of peer
     for tr in (["tcp", "ipc", "inproc"] if thorough else ["tcp"]):
         scs.append(reply_shapes_scenario("router-replies-%s" % tr, tr))
@@ -241,6 +251,7 @@ def run(ctx):
     for s in plain:
         s.pop("peers", None)
         s.pop("mandatory", None)
+        s.pop("poll", None)
     res = S.run_scenarios(ctx, plain, "c11", timeout=1500, jobs=3)
     for sc, r0 in zip(scs, res):
         if sc["name"].startswith("router-replies"):
